@@ -99,6 +99,15 @@ def gen_cases(tier, seed):
         d = [c04._mk(l, e, rng, cen[1]) for l, e in ket]
         for arr_name, order in (("(tt|dd)", [t[0], t[1], d[0], d[1]]), ("(td|td)", [t[0], d[0], t[1], d[1]])):
             cases.append({"kind": "quartet", "shells": [dict(s) for s in order], "classes": ["quartet", "ill:" + name, "arr:" + arr_name], "cost": 800})
+        if any(len(s_["e"]) > 1 for s_ in t + d):
+            cases.append({"kind": "quartet", "shells": [c04._rev(s) for s in (t[0], t[1], d[0], d[1])], "classes": ["quartet", "ill:" + name, "arr:(tt|dd)", "primitives-reversed"], "cost": 800})
+    rng = bases.rng_for("C11", "ill4")
+    for name, bra, ket, cen4 in c04.ILL4:
+        t = [c04._mk(l, e, rng, c_) for (l, e), c_ in zip(bra, cen4[:2])]
+        d = [c04._mk(l, e, rng, c_) for (l, e), c_ in zip(ket, cen4[2:])]
+        for arr_name, order in (("(td|dt)", [t[0], d[0], d[1], t[1]]), ("(td'|dt')", [t[1], d[0], d[1], t[0]]), ("(tt|dd)", [t[0], t[1], d[0], d[1]])):
+            cases.append({"kind": "quartet", "shells": [dict(s) for s in order], "classes": ["quartet", "ill:" + name, "arr:" + arr_name], "cost": 3000})
+        cases.append({"kind": "quartet", "shells": [c04._rev(s) for s in (t[0], t[1], d[0], d[1])], "classes": ["quartet", "ill:" + name, "arr:(tt|dd)", "primitives-reversed"], "cost": 3000})
     cases += bases.dup_variants("C11", seed, tier, [c for c in cases if c["kind"] == "perm"], 5)  # one shell listed twice as the same object
     cases += bases.argrep_variants("C11", seed, tier, cases, 7, ok=lambda c: "shells" in c and c.get("kind") in (None, "whole", "kernel", "perm", "real"))  # constructor arguments in other in-memory representations
     return cases
